@@ -219,6 +219,22 @@ def struct_check(ax, case, rec):
     w = np.asarray(q.weights, float)
     rec.nontrivial = len(w) > 1
     rec.require("shape", x.shape == (len(w), dim) and q.dim == dim and q.npoints == len(w), str(x.shape))
+    # a scheme object is shared freely (region templates keep one default instance): using its auxiliary methods must not
+    # change the rule. plot() is driven with a stand-in plotter (no rendering).
+
+    class _Plotter:
+        def add_points(self, *a, **k):
+            pass
+
+    x_before, w_before = x.copy(), w.copy()
+    for weighted in (True, False):
+        q.plot(plotter=_Plotter(), weighted=weighted)
+    if hasattr(q, "inv"):
+        q.inv()
+    rec.require("rule-unchanged-by-plot()/inv()", np.array_equal(np.asarray(q.points, float), x_before) and np.array_equal(np.asarray(q.weights, float), w_before),
+                {"weights-sum-before": float(w_before.sum()), "after": float(np.asarray(q.weights).sum())})
+    x = np.asarray(q.points, float)
+    w = np.asarray(q.weights, float)
     t = tol(kind.replace("Boundary", ""), order)
     if kind in ("GaussLegendre", "GaussLobatto"):
         rec.close("weights-sum", abs(w.sum() - 2.0**dim), t)
